@@ -110,7 +110,7 @@ def tlc(module, cfg, workers=1, timeout=600, env=None, heap="4g", extra=(), simu
 
 
 def parse_tlc(out):
-    r = {"generated": 0, "distinct": 0, "depth": 0, "errors": [], "rejects": [], "accepted": False, "parse_error": False}
+    r = {"generated": 0, "distinct": 0, "depth": 0, "errors": [], "rejects": [], "knowns": [], "accepted": False, "parse_error": False}
     m = re.findall(r"(\d+) states generated, (\d+) distinct states found", out)
     if m:
         r["generated"], r["distinct"] = int(m[-1][0]), int(m[-1][1])
@@ -122,6 +122,8 @@ def parse_tlc(out):
             r["errors"].append(line.strip())
         if line.startswith('<<"REJECT"'):
             r["rejects"].append(line.strip())
+        if line.startswith('<<"KNOWN"'):
+            r["knowns"].append(line.strip())
         if line.startswith('<<"ACCEPTED"'):
             r["accepted"] = True
         if "Parsing or semantic analysis failed" in line or "TLC threw an unexpected exception" in line \
@@ -185,7 +187,7 @@ def validate_lines(trace_module, cfg, raw_lines, label, timeout=900, heap="3g"):
             continue
         break
     os.remove(mfile)
-    res = {"nevents": n, "wall_s": round(wall, 1), "rejects": r["rejects"], "errors": r["errors"]}
+    res = {"nevents": n, "wall_s": round(wall, 1), "rejects": r["rejects"], "errors": r["errors"], "knowns": r["knowns"]}
     if r["accepted"] and not r["errors"]:
         res["accepted"], res["reject_index"] = True, None
         return res
@@ -300,6 +302,7 @@ def trace_job(oc, job, repo, seed, tier):
     log("  validated %d files against %s in %.1fs" % (len(vals), job["spec"], time.time() - t0))
     for fseed, args, lines, res in vals:
         oc.files += 1
+        known_markers(oc, job, fseed, args, lines, res)
         segs = split_segments(lines)
         if res["accepted"]:
             acc = segs
@@ -328,6 +331,29 @@ def trace_job(oc, job, repo, seed, tier):
                 oc.nontrivial.add(hashlib.sha1("\n".join(s[1]).encode()).hexdigest())
             if len(oc.samples) < 3:
                 oc.samples.append({"harness": job["harness"], "seed": fseed, "first_events": evs[:6]})
+
+
+def known_markers(oc, job, fseed, args, lines, res):
+    """<<"KNOWN", name, l>> lines are printed by a trace spec where the execution shows a recorded known finding and
+    the spec continues with the observed value.  A marker that known_findings.json does not list is a violation."""
+    for k in res.get("knowns", []):
+        m = re.match(r'<<"KNOWN", "([^"]+)", (\d+)>>', k)
+        if not m:
+            continue
+        name, idx = m.group(1), int(m.group(2)) - 1
+        pm = re.match(r"(C\d\d):", name)
+        if pm and pm.group(1) != oc.prop:
+            continue
+        listed = [f for f in load_known()["findings"] if f.get("marker") == name and f["property"] == oc.prop]
+        if listed:
+            msg = "KNOWN-FINDING: property=%s %s" % (oc.prop, listed[0]["what"])
+            if msg not in oc.known:
+                oc.known.append(msg)
+            oc.extra["known_finding_occurrences"] = oc.extra.get("known_finding_occurrences", 0) + 1
+        else:
+            seg = [s for s in split_segments(lines) if s[0] <= idx < s[0] + len(s[1])][0]
+            rp = store_replay(oc.prop, job, fseed, args, seg[1][: idx - seg[0] + 1], "marker")
+            oc.violations.append((rp, "marker %s at event #%d is not a listed known finding" % (name, idx)))
 
 
 def store_replay(prop, job, fseed, args, seglines, kind):
